@@ -159,3 +159,300 @@ FIND_TASKS = Contract(
 )
 
 CONTRACTS = [FIND_TASKIDS, FIND_TASKS]
+
+
+# =====================================================================================
+# C03: register / unregister keep the four indices equal to F(registered tasks)
+# =====================================================================================
+from contracts.refcount import CONTRACTS as _RC      # noqa: E402  (callee contracts)
+
+# c(W, R) = |targets(W) n dependencies(R)|   (number of locations through which W feeds R)
+card = z3.Function("card_targets_deps", V, V, IntS)
+# rdsum(dom, val, d, x) = #{ t in dom : d in deps(val t) and x in targets(val t) }   (finite sum)
+_AB, _AV = z3.ArraySort(V, BoolS), z3.ArraySort(V, V)
+rdsum = z3.Function("rdeps_sum", _AB, _AV, V, V, IntS)
+
+
+def ind(tk, dd, xx):
+    return z3.If(z3.And(deps(tk)(dd), tars(tk)(xx)), 1, 0)
+
+
+def b2i(b):
+    return z3.If(b, 1, 0)
+
+
+def idx_wf(m):
+    """IdxWF(M): indices(M) == F(dom M.tasks) pointwise on counts (DESIGN section 3)."""
+    has, val = m.tasks.has, m.tasks.get
+    return [
+        ("keys", keys_ok(m)),
+        ("deptasks=F", z3.ForAll([d, t], m.deptasks.cnt(d, t) == b2i(z3.And(has(t), deps(val(t))(d))))),
+        ("tartasks=F", z3.ForAll([r, t], m.tartasks.cnt(r, t) == b2i(z3.And(has(t), tars(val(t))(r))))),
+        ("rtasks=F", z3.ForAll([w, r], m.rtasks.cnt(w, r) == z3.If(z3.And(has(w), has(r)), card(val(w), val(r)), 0))),
+        ("rdeps=F", z3.ForAll([d, x], m.rdeps.cnt(d, x) == rdsum(m.tasks.dom, m.tasks.val, d, x))),
+    ]
+
+
+def idx_wf_all(m):
+    return z3.And(*[f for _, f in idx_wf(m)])
+
+
+def card_axioms():
+    return [z3.ForAll([w, r], card(w, r) >= 0, patterns=[card(w, r)])]
+
+
+def rdsum_lower(m):
+    """a finite sum of 0/1 terms is >= 0 and >= each of its terms (definition of rdsum)"""
+    return z3.And(
+        z3.ForAll([d, x], rdsum(m.tasks.dom, m.tasks.val, d, x) >= 0),
+        z3.ForAll([t, d, x], z3.Implies(m.tasks.has(t),
+                                        rdsum(m.tasks.dom, m.tasks.val, d, x) >= ind(m.tasks.get(t), d, x))))
+
+
+def rdsum_add(m, key, tk):
+    """rdsum over dom+{key} (key fresh, bound to tk) = rdsum over dom + the new term"""
+    dom1 = z3.Store(m.tasks.dom, key, z3.BoolVal(True))
+    val1 = z3.Store(m.tasks.val, key, tk)
+    return z3.ForAll([d, x], z3.Implies(z3.Not(m.tasks.has(key)),
+                                        rdsum(dom1, val1, d, x) == rdsum(m.tasks.dom, m.tasks.val, d, x) + ind(tk, d, x)))
+
+
+def rdsum_del(m, key):
+    dom1 = z3.Store(m.tasks.dom, key, z3.BoolVal(False))
+    return z3.ForAll([d, x], z3.Implies(m.tasks.has(key),
+                                        rdsum(dom1, m.tasks.val, d, x)
+                                        == rdsum(m.tasks.dom, m.tasks.val, d, x) - ind(m.tasks.get(key), d, x)))
+
+
+def prefix_count(st, enum, pred, hint):
+    """spec function pc(v, a) = #{ j < a : pred(v, enum[j]) } with its defining axioms
+    (base, step) and monotonicity (a consequence, stated because the solver does no induction)."""
+    pc = FreshFun(hint, V, IntS, IntS)
+    a, b = z3.Ints("a!pc b!pc")
+    v = z3.Const("v!pc", V)
+    st.hyps += [
+        z3.ForAll([v], pc(v, 0) == 0, patterns=[pc(v, 0)]),
+        z3.ForAll([v, a], z3.Implies(z3.And(0 <= a, a < enum.n),
+                                     pc(v, a + 1) == pc(v, a) + b2i(pred(v, enum.at(a)))),
+                  patterns=[pc(v, a + 1)]),
+        z3.ForAll([v, a, b], z3.Implies(z3.And(0 <= a, a <= b, b <= enum.n), pc(v, a) <= pc(v, b)),
+                  patterns=[z3.MultiPattern(pc(v, a), pc(v, b))]),
+        z3.ForAll([v, a], z3.Implies(z3.And(0 <= a, a <= enum.n), z3.And(0 <= pc(v, a), pc(v, a) <= pc(v, enum.n))),
+                  patterns=[pc(v, a)]),
+    ]
+    return pc
+
+
+LEMMA_COUNT = ("counting lemma (lemmas/Counting.lean): for a duplicate-free enumeration e of a finite set A and a set B, "
+               "#{j < |A| : e(j) in B} = |A n B|, and |A n B| = |B n A|")
+
+
+# ---------------------------------------------------------------------------- register
+def _reg_pre(s):
+    return s.self, s.task.t, task_id(s.task.t)
+
+
+def _reg_setup0(L, st):
+    m0, tk, tid = _reg_pre(L.old)
+    pcR = prefix_count(st, L.enum, lambda v, e: tars(m0.tasks.get(v))(e), "pcR")
+    # counting lemma instance: enum = dependencies(task), B = targets(T0 v)
+    v = z3.Const("v!l", V)
+    st.hyps.append(z3.ForAll([v], pcR(v, L.n) == card(m0.tasks.get(v), tk), patterns=[pcR(v, L.n)]))
+    L.eng.lemma_uses.append(LEMMA_COUNT)
+    return dict(pcR=pcR)
+
+
+def _reg_setup2(L, st):
+    m0, tk, tid = _reg_pre(L.old)
+    val1 = lambda v: z3.If(v == tid, tk, m0.tasks.get(v))
+    qcD = prefix_count(st, L.enum, lambda v, e: deps(val1(v))(e), "qcD")
+    v = z3.Const("v!l", V)
+    st.hyps.append(z3.ForAll([v], qcD(v, L.n) == card(tk, val1(v)), patterns=[qcD(v, L.n)]))
+    L.eng.lemma_uses.append(LEMMA_COUNT)
+    return dict(qcD=qcD, val1=val1)
+
+
+def _reg_inv0():
+    def rdeps(L):
+        m0, tk, tid = _reg_pre(L.old)
+        return z3.ForAll([d, x], L.cur.self.rdeps.cnt(d, x) == m0.rdeps.cnt(d, x)
+                         + b2i(z3.And(deps(tk)(d), L.idx(d) < L.k, tars(tk)(x))))
+
+    def deptasks(L):
+        m0, tk, tid = _reg_pre(L.old)
+        return z3.ForAll([d, t], L.cur.self.deptasks.cnt(d, t) == m0.deptasks.cnt(d, t)
+                         + b2i(z3.And(deps(tk)(d), L.idx(d) < L.k, t == tid)))
+
+    def rtasks(L):
+        m0, tk, tid = _reg_pre(L.old)
+        return z3.ForAll([w, r], L.cur.self.rtasks.cnt(w, r) == m0.rtasks.cnt(w, r)
+                         + z3.If(z3.And(r == tid, m0.tasks.has(w)), L.x["pcR"](w, L.k), 0))
+    return [("rdeps+prefix", rdeps), ("deptasks+prefix", deptasks), ("rtasks+prefixcount", rtasks),
+            ("index", lambda L: z3.And(0 <= L.k, L.k <= L.n))]
+
+
+def _reg_inv1():
+    def rtasks(L):
+        m0, tk, tid = _reg_pre(L.old)
+        dep = L.cur.dep.t
+        return z3.ForAll([w, r], L.cur.self.rtasks.cnt(w, r) == L.pre.self.rtasks.cnt(w, r)
+                         + b2i(z3.And(r == tid, m0.tartasks.cnt(dep, w) > 0, L.idx(w) < L.k)))
+    return [("rtasks+inner-prefix", rtasks), ("index", lambda L: z3.And(0 <= L.k, L.k <= L.n))]
+
+
+def _reg_inv2():
+    def tartasks(L):
+        m0, tk, tid = _reg_pre(L.old)
+        return z3.ForAll([r, t], L.cur.self.tartasks.cnt(r, t) == m0.tartasks.cnt(r, t)
+                         + b2i(z3.And(tars(tk)(r), L.idx(r) < L.k, t == tid)))
+
+    def rtasks(L):
+        m0, tk, tid = _reg_pre(L.old)
+        has1 = lambda v: z3.Or(v == tid, m0.tasks.has(v))
+        return z3.ForAll([w, r], L.cur.self.rtasks.cnt(w, r) == L.pre.self.rtasks.cnt(w, r)
+                         + z3.If(z3.And(w == tid, has1(r)), L.x["qcD"](r, L.k), 0))
+    return [("tartasks+prefix", tartasks), ("rtasks+prefixcount", rtasks),
+            ("index", lambda L: z3.And(0 <= L.k, L.k <= L.n))]
+
+
+def _reg_inv3():
+    def rtasks(L):
+        m0, tk, tid = _reg_pre(L.old)
+        return z3.ForAll([w, r], L.cur.self.rtasks.cnt(w, r) == L.pre.self.rtasks.cnt(w, r)
+                         + b2i(z3.And(w == tid, L.cur.other.cnt(r) > 0, L.idx(r) < L.k)))
+    return [("rtasks+inner-prefix", rtasks), ("index", lambda L: z3.And(0 <= L.k, L.k <= L.n))]
+
+
+FROZEN_MSG_FIELDS = ("tasks", "containers", "rdeps", "rtasks", "deptasks", "tartasks", "_tree_frozen")
+
+REGISTER = Contract(
+    module=M, qualname="Manager.register",
+    params=dict(self=TMgr, task=TTask),
+    requires=[(lb, (lambda lb_: lambda s: dict(idx_wf(s.self))[lb_])(lb)) for lb in
+              ("keys", "deptasks=F", "tartasks=F", "rtasks=F", "rdeps=F")] + [
+        ("taskid-not-registered", lambda s: z3.Or(s.self._tree_frozen.t,
+                                                  z3.Not(s.self.tasks.has(task_id(s.task.t))))),
+    ],
+    axioms=[lambda s: z3.And(*card_axioms()),
+            lambda s: rdsum_lower(s.self),
+            lambda s: rdsum_add(s.self, task_id(s.task.t), s.task.t)],
+    ensures=[("tasks+task", lambda o, n, r: z3.And(
+        n.self.tasks.dom == z3.Store(o.self.tasks.dom, task_id(o.task.t), z3.BoolVal(True)),
+        n.self.tasks.val == z3.Store(o.self.tasks.val, task_id(o.task.t), o.task.t)))] + [
+        (lb, (lambda lb_: lambda o, n, r: dict(idx_wf(n.self))[lb_])(lb)) for lb in
+        ("keys", "deptasks=F", "tartasks=F", "rtasks=F", "rdeps=F")],
+    raises={"ValueError": dict(when=lambda s: s.self._tree_frozen.t, exact=True, post=[], modifies=())},
+    modifies=("self.tasks", "self.rdeps", "self.rtasks", "self.deptasks", "self.tartasks"),
+    loops={
+        0: LoopSpec(anchor="task.dependencies", invariants=_reg_inv0(), setup=_reg_setup0),
+        1: LoopSpec(anchor="self.tartasks[dep]", invariants=_reg_inv1()),
+        2: LoopSpec(anchor="task.targets", invariants=_reg_inv2(), setup=_reg_setup2),
+        3: LoopSpec(anchor="other", invariants=_reg_inv3()),
+    },
+    min_obligations=25,
+    extra=dict(trusted_lemmas=[LEMMA_COUNT, "rdeps_sum is a finite sum of 0/1 terms: adding/removing one summand "
+                                            "changes it by that summand; it dominates each summand"]),
+)
+
+CONTRACTS += [REGISTER]
+
+
+# -------------------------------------------------------------------------- unregister
+def _unr_pre(s):
+    m0 = s.self
+    tid = s.taskid.t
+    return m0, m0.tasks.get(tid), tid
+
+
+def _unr_setup0(L, st):
+    m0, tk, tid = _unr_pre(L.old)
+    pcR = prefix_count(st, L.enum, lambda v, e: tars(m0.tasks.get(v))(e), "pcRu")
+    v = z3.Const("v!l", V)
+    st.hyps.append(z3.ForAll([v], pcR(v, L.n) == card(m0.tasks.get(v), tk), patterns=[pcR(v, L.n)]))
+    L.eng.lemma_uses.append(LEMMA_COUNT)
+    return dict(pcR=pcR)
+
+
+def _unr_inv0():
+    def rdeps(L):
+        m0, tk, tid = _unr_pre(L.old)
+        return z3.ForAll([d, x], L.cur.self.rdeps.cnt(d, x) == m0.rdeps.cnt(d, x)
+                         - b2i(z3.And(deps(tk)(d), L.idx(d) < L.k, tars(tk)(x))))
+
+    def deptasks(L):
+        m0, tk, tid = _unr_pre(L.old)
+        return z3.ForAll([d, t], L.cur.self.deptasks.cnt(d, t) == m0.deptasks.cnt(d, t)
+                         - b2i(z3.And(deps(tk)(d), L.idx(d) < L.k, t == tid)))
+
+    def rtasks(L):
+        m0, tk, tid = _unr_pre(L.old)
+        return z3.ForAll([w, r], L.cur.self.rtasks.cnt(w, r) == m0.rtasks.cnt(w, r)
+                         - z3.If(z3.And(r == tid, m0.tasks.has(w)), L.x["pcR"](w, L.k), 0))
+    return [("rdeps-prefix", rdeps), ("deptasks-prefix", deptasks), ("rtasks-prefixcount", rtasks),
+            ("task-bound", lambda L: L.cur.task.t == _unr_pre(L.old)[1]),
+            ("index", lambda L: z3.And(0 <= L.k, L.k <= L.n))]
+
+
+def _unr_inv1():
+    def rdeps(L):
+        m0, tk, tid = _unr_pre(L.old)
+        dep = L.cur.dep.t
+        return z3.ForAll([d, x], L.cur.self.rdeps.cnt(d, x) == L.pre.self.rdeps.cnt(d, x)
+                         - b2i(z3.And(d == dep, tars(tk)(x), L.idx(x) < L.k)))
+    return [("rdeps-inner-prefix", rdeps), ("index", lambda L: z3.And(0 <= L.k, L.k <= L.n))]
+
+
+def _unr_inv2():
+    def rtasks(L):
+        m0, tk, tid = _unr_pre(L.old)
+        dep = L.cur.dep.t
+        return z3.ForAll([w, r], L.cur.self.rtasks.cnt(w, r) == L.pre.self.rtasks.cnt(w, r)
+                         - b2i(z3.And(r == tid, m0.tartasks.cnt(dep, w) > 0, L.idx(w) < L.k)))
+    def hint(L):
+        # instantiation hint (a consequence of the prefix-count step axiom): the writers of `dep`
+        # are exactly the tasks whose count grows at this position of the outer enumeration
+        m0, tk, tid = _unr_pre(L.old)
+        dep, a, pcR = L.cur.dep.t, L.K[0], L.X[0]["pcR"]
+        return z3.ForAll([w], z3.Implies(m0.tartasks.cnt(dep, w) > 0,
+                                         z3.And(pcR(w, a + 1) == pcR(w, a) + 1, pcR(w, a + 1) <= pcR(w, L.IT[0].n))),
+                         patterns=[m0.tartasks.cnt(dep, w)])
+    return [("rtasks-inner-prefix", rtasks), ("count-step-hint", hint),
+            ("index", lambda L: z3.And(0 <= L.k, L.k <= L.n))]
+
+
+def _unr_inv3():
+    def tartasks(L):
+        m0, tk, tid = _unr_pre(L.old)
+        return z3.ForAll([r, t], L.cur.self.tartasks.cnt(r, t) == m0.tartasks.cnt(r, t)
+                         - b2i(z3.And(tars(tk)(r), L.idx(r) < L.k, t == tid)))
+    return [("tartasks-prefix", tartasks), ("index", lambda L: z3.And(0 <= L.k, L.k <= L.n))]
+
+
+UNREGISTER = Contract(
+    module=M, qualname="Manager.unregister",
+    params=dict(self=TMgr, taskid=TV),
+    requires=[(lb, (lambda lb_: lambda s: dict(idx_wf(s.self))[lb_])(lb)) for lb in
+              ("keys", "deptasks=F", "tartasks=F", "rtasks=F", "rdeps=F")],
+    axioms=[lambda s: z3.And(*card_axioms()),
+            lambda s: rdsum_lower(s.self),
+            lambda s: rdsum_del(s.self, s.taskid.t)],
+    ensures=[("tasks-task", lambda o, n, r: z3.And(
+        n.self.tasks.dom == z3.Store(o.self.tasks.dom, o.taskid.t, z3.BoolVal(False)),
+        n.self.tasks.val == o.self.tasks.val))] + [
+        (lb, (lambda lb_: lambda o, n, r: dict(idx_wf(n.self))[lb_])(lb)) for lb in
+        ("keys", "deptasks=F", "tartasks=F", "rtasks=F", "rdeps=F")],
+    raises={"ValueError": dict(when=lambda s: s.self._tree_frozen.t, exact=True, post=[], modifies=()),
+            "KeyError": dict(when=lambda s: z3.And(z3.Not(s.self._tree_frozen.t), z3.Not(s.self.tasks.has(s.taskid.t))),
+                             exact=True, post=[], modifies=())},
+    modifies=("self.tasks", "self.rdeps", "self.rtasks", "self.deptasks", "self.tartasks"),
+    loops={
+        0: LoopSpec(anchor="task.dependencies", invariants=_unr_inv0(), setup=_unr_setup0),
+        1: LoopSpec(anchor="task.targets", invariants=_unr_inv1()),
+        2: LoopSpec(anchor="self.tartasks[dep]", invariants=_unr_inv2()),
+        3: LoopSpec(anchor="task.targets", invariants=_unr_inv3()),
+    },
+    min_obligations=25,
+    extra=dict(trusted_lemmas=[LEMMA_COUNT]),
+)
+
+CONTRACTS += [UNREGISTER]
